@@ -115,7 +115,9 @@ def gen_api(tier, seed):
 
 
 def suites(tier, seed):
-    return [Suite("server-close-at-api", "api", lambda: gen_api(tier, seed), monitor=api_monitor, nontrivial=lambda c, il: True, canon=apigen.canon,
+    return [Suite("reply-then-close", "machine", lambda: mg.reply_close_cases(Rng(seed + 77), kinds=("chan",)), monitor=monitor, nontrivial=lambda c, il: True, canon=mg.canon_nondet, candidate_ok=mg.candidate_ok, exhaustive=True,
+                  rule="directed: a call in flight on channel 1, a second channel busy; the reply and a server close arrive back to back (one read / two reads / handed over directly; reply taken before or after the close) for queue bounds 0, 1, 2, 16: both reach the caller in order, the other channel keeps working (channel close) or is told (connection close)"),
+            Suite("server-close-at-api", "api", lambda: gen_api(tier, seed), monitor=api_monitor, nontrivial=lambda c, il: True, canon=apigen.canon,
                   rule="public API over the real queue ends: two channels; the server's Channel.Close(n, code, text) is queued for n's handle and n's slot is gone; the next operation on n is Channel::close (35%) or a random one of the 36 API calls; then a call on the other channel. Exact diff against the Lean Api model + monitor from the property text"),
             Suite("sessions", "machine", lambda: gen(tier, seed), monitor=monitor, nontrivial=nontrivial, canon=mg.canon_nondet, candidate_ok=mg.candidate_ok,
                   rule="random sessions biased to server-initiated channel closes hitting channels that are idle / have a call in flight / content half received / consumers attached / a client close in flight, while 1-5 other channels keep working; ids reopened afterwards")]
